@@ -164,7 +164,7 @@ def run(m, chk):
         "no IndexError from the constructor's index scans (X-INDEX), span/mult/split dominated by the valid ⇒ ValueError guard. "
         "Completeness of the validator (that it accepts exactly the clamped vectors) and the values of span/mult are not decided."
     )
-    chk.decides = ["TOL-ABSOLUTE (knot identity is decided on differences, never with a tolerance relative to the knots)", "LOSSY-COMPARE (exact knots and nodes are not compared through their float image)", "UNORDERED (the sortedness test of the validator rejects a pair that is not ordered at all)", "FUNNEL", "COMMIT-LAST (KnotVector)", "V1", "X-INDEX", "GATE(valid ⇒ ValueError) for span/mult/split", 'MULT-KEEP (distinct knots never become knot-vector elements without their multiplicity)']
+    chk.decides = ["PROBE-ALL (the numeric probe of the validator is tried on every element: no all / any / next stops it early)", "TOL-ABSOLUTE (knot identity is decided on differences, never with a tolerance relative to the knots)", "LOSSY-COMPARE (exact knots and nodes are not compared through their float image)", "UNORDERED (the sortedness test of the validator rejects a pair that is not ordered at all)", "FUNNEL", "COMMIT-LAST (KnotVector)", "V1", "X-INDEX", "GATE(valid ⇒ ValueError) for span/mult/split", 'MULT-KEEP (distinct knots never become knot-vector elements without their multiplicity)']
     chk.not_decided = ["completeness of __is_valid (tails / unclamped vectors are accepted — seen by reading, out of static reach)", "agreement of span/mult/knots/limits values with the element list"]
 
     # 1. funnel ------------------------------------------------------------------------------
@@ -285,9 +285,83 @@ def run(m, chk):
         chk.ob("GATE-VALID", f"{q}: everything after `if not self.valid(nodes): raise ValueError`", ok, loc=r.loc(c, bad[0].ast) if bad else r.loc(c, c.fi.node),
                detail="" if ok else f"{q}: `{seg(bad[0].ast, 60)}` is reachable without the `valid(nodes)` ⇒ ValueError guard: a node outside the interval yields a value / another exception", func=q, construct="unguarded query")
     unordered_rejected(r, chk, "heavy.ImmutableKnotVector.__is_valid")
+    probe_all(r, chk, "heavy.ImmutableKnotVector.__is_valid")
     from .extra import lossy_compare
 
     lossy_compare(r, chk, m.exact())
     from .extra import tol_absolute
 
     tol_absolute(r, chk, ["heavy.ImmutableKnotVector.__get_unique", "heavy.ImmutableKnotVector.__mult_single", "heavy.ImmutableKnotVector.__span_single", "heavy.ImmutableKnotVector.__valid_single", "heavy.ImmutableKnotVector.__is_valid"])
+
+
+EAGER_CONSUMERS = {"list", "tuple", "sum", "sorted", "min", "max", "set", "frozenset", "len", "array", "asarray", "fsum", "prod", "dict", "Counter", "deque"}
+LAZY_CONSUMERS = {"all", "any", "next"}
+
+
+def probe_all(r: R, chk, qual: str, rule="PROBE-ALL"):
+    """the numeric probe of the validator reaches every element of the vector: it sits in a loop without `break`, in an
+    eager comprehension, or in a generator / map handed to a consumer that always exhausts it — not to all / any / next,
+    which stop at the first falsy (0 is a legal knot) or truthy element and leave the rest unprobed"""
+    fi = r.prog.func(qual)
+    vec = next((p for p in fi.params if p not in ("self", "cls")), None)
+    parent = {}
+    for n in ast.walk(fi.node):
+        for c in ast.iter_child_nodes(n):
+            parent[id(c)] = n
+
+    def over_vector(it) -> bool:
+        from .common import expand_locals
+
+        it = expand_locals(fi, it)
+        return any(isinstance(x, ast.Name) and x.id == vec for x in ast.walk(it))
+
+    def fname(c):
+        return c.func.id if isinstance(c.func, ast.Name) else c.func.attr if isinstance(c.func, ast.Attribute) else ""
+
+    exhaustive, lazy = [], []
+    for c in ast.walk(fi.node):
+        if not isinstance(c, ast.Call):
+            continue
+        src = None  # the lazily iterated expression this probe lives in
+        if isinstance(c.func, ast.Name) and c.func.id == "float" and c.args:
+            p = c
+            while id(p) in parent:
+                q = parent[id(p)]
+                if isinstance(q, (ast.ListComp, ast.SetComp, ast.DictComp)) and any(over_vector(g.iter) for g in q.generators):
+                    if not any(g.ifs for g in q.generators):
+                        exhaustive.append((c, "eager comprehension"))
+                    break
+                if isinstance(q, ast.GeneratorExp) and any(over_vector(g.iter) for g in q.generators):
+                    src = q if not any(g.ifs for g in q.generators) else None
+                    break
+                if isinstance(q, ast.For) and over_vector(q.iter) and p in q.body:
+                    unconditional = isinstance(p, (ast.Expr, ast.Assign, ast.Try))
+                    has_break = any(isinstance(x, ast.Break) for x in ast.walk(q))
+                    if unconditional and not has_break:
+                        exhaustive.append((c, "loop without break"))
+                    break
+                if isinstance(q, (ast.If, ast.While)):
+                    break  # a probe under a condition: not counted either way
+                if isinstance(q, (ast.FunctionDef, ast.Lambda)):
+                    break
+                p = q
+        elif fname(c) == "map" and len(c.args) == 2 and isinstance(c.args[0], ast.Name) and c.args[0].id == "float" and over_vector(c.args[1]):
+            src = c
+        if src is None:
+            continue
+        user = parent.get(id(src))
+        if isinstance(user, ast.Call) and src in user.args:
+            if fname(user) in EAGER_CONSUMERS:
+                exhaustive.append((c, f"{fname(user)}(...) exhausts it"))
+            elif fname(user) in LAZY_CONSUMERS:
+                lazy.append((c, user))
+        elif isinstance(user, ast.For) and user.iter is src and not any(isinstance(x, ast.Break) for x in ast.walk(user)):
+            exhaustive.append((c, "loop over the mapped values"))
+        elif isinstance(user, ast.Starred) or isinstance(user, (ast.Tuple, ast.List)):
+            exhaustive.append((c, "unpacked"))
+    if not exhaustive and not lazy:
+        chk.floor(rule, f"numeric probes of the elements in {qual}", 0, 1)
+    ok = bool(exhaustive)
+    chk.ob(rule, f"{qual}: `float(...)` is tried on every element of `{vec}`", ok, loc=f"{fi.module}.py:{(exhaustive or lazy)[0][0].lineno}",
+           detail="" if ok else f"{qual}: the only numeric probe is `{seg(lazy[0][1], 60)}`: `{fname(lazy[0][1])}` stops at the first {'falsy' if fname(lazy[0][1]) == 'all' else 'truthy' if fname(lazy[0][1]) == 'any' else ''} element — a knot 0 (or the first non-zero one) ends the scan and a non-numeric entry behind it is never probed, so it is accepted or fails later with another exception",
+           func=qual, construct="numeric probe not exhaustive")
